@@ -14,7 +14,7 @@ fn show(r: Result<bool, String>) -> char {
     }
 }
 
-/// case: <id> <bpk> <probe> <k1,k2,...>
+/// case: <id> <bpk> <probe> <k1,k2,...> [<bpk of the policy that reads the filter>]
 pub fn run_bloom(line: &str) -> String {
     let toks: Vec<&str> = line.split(' ').collect();
     let bpk: usize = toks[1].parse().unwrap();
@@ -26,6 +26,14 @@ pub fn run_bloom(line: &str) -> String {
     };
     let policy = BloomFilterPolicy::new(bpk);
     let filter = policy.create_filter(&keys);
+    // optional 5th token: the filter is consulted by a policy object configured with another
+    // bits-per-key (a database reopened with different options reads its old filters): the number
+    // of probes is the one stored in the filter
+    let policy = if toks.len() > 4 {
+        BloomFilterPolicy::new(toks[4].parse().unwrap())
+    } else {
+        policy
+    };
     let res: String = keys
         .iter()
         .map(|k| show(policy.key_may_match(k, &filter).map_err(|e| e.to_string())))
